@@ -250,7 +250,7 @@ func init() {
 func TestC06(t *testing.T) {
 	rig.Main(t, "C06", "rapid emitter histories (instructions, data, labels from a pool of 8, forward/backward/multiple/missing references, absolute jumps, duplicate label definitions, "+
 		"optional base address set first, program within one bank) with branch distances solved to -129/-128/-127 and +126/+127/+128, run on a real emitter and on an executable model; "+
-		"Finalize's verdict, every patched byte, the error message and the set of bytes a failing Finalize may touch are compared, and Finalize is called twice at the end and, in a third of the cases, also at a drawn earlier point after which the program continues; the buffer is exactly as long as the program in a quarter of the cases; in a quarter a drawn part of the calls reaches the emitter through Clone + Append (half of these with a second, discarded clone used at the same time).  Non-trivial = the history "+
+		"Finalize's verdict, every patched byte, the error message and the set of bytes a failing Finalize may touch are compared, and Finalize is called twice at the end and, in a third of the cases, also at a drawn earlier point after which the program continues; the buffer is exactly as long as the program in a quarter of the cases; in a quarter a drawn part of the calls reaches the emitter through Clone + Append (half of these with a second, discarded clone used at the same time); a fifth of the clone-free histories run in a buffer that is 1-6 bytes too small (refused calls, then Finalize).  Non-trivial = the history "+
 		"contains a label reference; distinct = hash(case).",
 		func(r *rig.Run) {
 			ev := r.Ev
